@@ -49,6 +49,11 @@ func (r *reader) Token() (xml.Token, error) {
 	case xml.StartElement:
 		r.depth++
 		if r.ws && t.Name.Space == wsNamespace && !r.negotiating {
+			// RFC 7395: <close/> ends the stream like </stream:stream> does on
+			// TCP; anything else in the framing namespace is a restart.
+			if t.Name.Local == "close" {
+				return nil, io.EOF
+			}
 			return nil, ErrUnexpectedRestart
 		}
 		if t.Name.Space != stream.NS {
